@@ -18,15 +18,15 @@ LEVEL_NOTE = 'Trusted: the ledger model; single-column series; stamps non-decrea
 RULE = ('random publication histories: 2-8 versions over 3-30 observation dates (deliberately crossing 16 stored rows), non-decreasing stamps with repeats, values in {0..3, NaN} '
         'so repeats and reverts are common, partial versions, dates first appearing late; after every merge reads at T before/on/between/after each stamp for what in {-1, 0}; '
         'non-trivial = (>=2 versions share a stamp and >16 stored rows) or a revert to an earlier value; distinct = canonical hash of the history')
-RULE_ALSO = "; added by the coverage audit and round 8: read times as ISO text / yyyymmdd / date, observation dates after the stamps, stamped and plain versions mixed in one merge, stamps taken from the clock ('now') bracketed by clock readings; the store's index name and column labels are part of read_does_not_change_store"
+RULE_ALSO = "; added by the coverage audit and round 8: read times as ISO text / yyyymmdd / date, observation dates after the stamps, stamped and plain versions mixed in one merge, stamps taken from the clock ('now') bracketed by clock readings; the store's index name and column labels are part of read_does_not_change_store; rows stamped relative to their own observation date (Bi(ts, n), Bi(ts, 'nd'), Bi(ts, ['kb', 'nh']), Bi(ts, 'shift')) against an independent stamp model, then merged and read like any other history"
 ASSUMPTIONS = ['versions are merged in non-decreasing stamp order (as the statement requires)', 'single-column series only (multi-column frames are outside the statement)',
-               'idempotence is claimed for re-merging the most recent version or a version whose stamp is unique in the history']
+               'for versions whose rows are stamped relative to their own date the premise (non-decreasing stamps) is read per observation date', 'idempotence is claimed for re-merging the most recent version or a version whose stamp is unique in the history']
 T0 = datetime.datetime(2020, 1, 1)
 DAY = datetime.timedelta(1)
 
 
 def required(tier):
-    return {'asof_read_last': 1500, 'asof_read_first': 1500, 'no_lookahead_rows': 1500, 'remerge_idempotent': 100}
+    return {'asof_read_last': 1500, 'asof_read_first': 1500, 'no_lookahead_rows': 1500, 'remerge_idempotent': 100, 'bump_stamps_model': 10}
 
 
 def isn(v):
@@ -70,6 +70,8 @@ def run_case(case, ctx):
         ctx.cls('observation_dates_after_the_stamps')
     if case.get('now_stamps'):
         return run_now(case, ctx, dates)
+    if case.get('bump_stamps'):
+        return run_bump(case, ctx, dates)
     store = None
     ledger = {}
     stamps = []
@@ -223,6 +225,70 @@ def run_now(case, ctx, dates):
     ctx.mark_nontrivial(case)
 
 
+def _bday_after(d, k):
+    """the k-th weekday after d (a weekend day first rolls to Monday), by walking one day at a time"""
+    while d.weekday() > 4:
+        d = d + DAY
+    while k:
+        d = d + DAY
+        if d.weekday() <= 4:
+            k -= 1
+    return d
+
+
+def run_bump(case, ctx, dates):
+    """Bi(ts, bump): every row is stamped relative to its own observation date - n days on, the k-th business day after it at h o'clock, or
+    (asof='shift') the next observation date.  The premise 'merged in non-decreasing order of stamp' is read per observation date: the bumps
+    do not decrease from one version to the next."""
+    import pandas as pd
+    from pyg_base import bi_merge, bi_read, Bi
+    fam = case['bump_stamps']
+    store, ledger, stamps = None, {}, []
+    vers = case['versions'][:1] if fam == 'shift' else case['versions'][:5]
+    bump = [0, 0, 0]
+    rng = random.Random(case['ndates'] * 13 + len(vers))
+    for vi, ver in enumerate(vers):
+        idx = [dates[i] for i in ver['idx']]
+        vals = [float('nan') if v is None else float(v) for v in ver['vals']]
+        s = pd.Series(vals, index=pd.DatetimeIndex(idx), dtype=float, name=case.get('series_name'))
+        if vi:
+            bump = [bump[0] + rng.choice([0, 0, 1, 2, 5]), bump[1] + rng.choice([0, 0, 1, 2]), bump[2] + rng.choice([0, 0, 3, 6])]
+        t_before = datetime.datetime.now()
+        if fam == 'int':
+            arg = bump[0]; exp_st = [d + DAY * bump[0] for d in idx]
+        elif fam == 'text':
+            arg = '%dd' % bump[0]; exp_st = [d + DAY * bump[0] for d in idx]
+        elif fam == 'blist':
+            arg = ['%db' % bump[1], '%dh' % bump[2]]; exp_st = [_bday_after(d, bump[1]) + datetime.timedelta(hours=bump[2]) for d in idx]
+        else:
+            arg = 'shift'; exp_st = idx[1:] + [None]
+        keep = list(arg) if isinstance(arg, list) else arg
+        st, b = ctx.call(Bi, s, arg)
+        t_after = datetime.datetime.now()
+        ctx.monitors['bump_stamps_model'] += 1
+        got_st = None if st != 'ok' else [u.to_pydatetime() for u in pd.to_datetime(b['updated'])]
+        if st == 'ok' and fam == 'shift' and got_st and t_before <= got_st[-1] <= t_after:
+            exp_st = exp_st[:-1] + [got_st[-1]]
+        if st != 'ok' or got_st != exp_st or arg != keep or list(s.index) != idx:
+            ctx.fail('bump_stamps_model', 'Bi(series on %s.., %r) stamps its rows %s, each observation date bumped on its own gives %s' % ([str(d.date()) for d in idx[:4]], keep, b if st != 'ok' else [str(u) for u in got_st[:5]], [str(u) for u in exp_st[:5]]))
+            return
+        st, merged = ctx.call(bi_merge, store, b)
+        if st != 'ok':
+            ctx.ev('asof_read_last'); ctx.fail('asof_read_last', 'bi_merge of version %d stamped with Bi(ts, %r) raised %s' % (vi, keep, core.exc_str(merged)))
+            return
+        store = merged
+        for d, v, u in zip(idx, vals, exp_st):
+            ledger.setdefault(d, []).append((u, v))
+            stamps.append(u)
+        probe = sorted(set(stamps))
+        if len(probe) > 10:
+            probe = sorted(rng.sample(probe, 10))
+        if not check_reads(ctx, store, ledger, probe, 'after merging version %d stamped with Bi(ts, %r)' % (vi, keep)):
+            return
+    ctx.cls('rows_stamped_relative_to_their_own_date:%s' % fam)
+    ctx.mark_nontrivial(case)
+
+
 def _nl(rows):
     return [['nan' if (isinstance(v, float) and v != v) else v for v in r] for r in rows]
 
@@ -332,6 +398,8 @@ def gen_case(rng):
         case['mixed_spelling'] = rng.choice([1, 2])
     if rng.random() < 0.08:
         case['now_stamps'] = rng.choice([1, 2, 3])
+    elif rng.random() < 0.08:
+        case['bump_stamps'] = rng.choice(['int', 'int', 'text', 'blist', 'blist', 'shift'])
     return case
 
 
